@@ -444,7 +444,7 @@ func record(shape int, argv []string, class string, nflags int) {
 }
 
 func TestGenerated(t *testing.T) {
-	rt.Check(t, 20000, 2000000, func(t *rapid.T) {
+	rt.Check(t, 20000, 6000000, func(t *rapid.T) {
 		shape := rapid.IntRange(0, 3).Draw(t, "shape") / 3 // 3:1 in favour of the big shape
 		defs := defsA
 		if shape == 1 {
